@@ -9,11 +9,15 @@ TEXT = ("TLC checks, in exact integer/rational arithmetic, that what benchmath d
         "of two samples with n1+n2 <= 6 (8 thorough), every small integer sample and the whole rendering grids; every input is then "
         "replayed on the real AssumeNothing/AssumeExact/AssumeNormal with seed-chosen concrete samples and metamorphic variants "
         "(shuffle, x2^k, x3, swap, increasing maps) and compared with the specification's tables. Exhaustive on those finite "
-        "domains, sampled (harness-drawn samples of 9..70 values) beyond them.")
+        "domains, sampled (harness-drawn samples of 9..70 values) beyond them; the normal model's summary is checked at EVERY sample "
+        "size 1..70 x confidence grid (centre = exact mean, symmetric interval, Student-t coverage of the interval = reported "
+        "confidence >= requested, by an independent quadrature of the t density), and its comparison p-value against Welch's "
+        "(exact rational t and degrees of freedom, t tail by quadrature).")
 NOTE = ("Trusted: TLC, the harness's concretisation of rank patterns and order statistics into float samples, float-vs-rational "
-        "comparison at 1e-12. Outside the model (auxiliary checks only): the t quantile of the normal model's interval, the normal "
-        "approximations used above 30 (median interval) and 50/25 (U-test) samples, the Welch p-value itself (only its symmetry, "
-        "range and invariances are checked). Rounding ties of the rendered percentages and confidence levels that coincide with a "
+        "comparison at 1e-12, math/big, math.Lgamma and the tanh-sinh quadrature of the t density (agrees with the finite series of "
+        "Abramowitz & Stegun 26.7.3/4 to 2e-13). Outside the model (harness-side numeric oracles): the t coverage of the normal "
+        "model's interval (1e-8) and the Welch p-value (1e-9); auxiliary only: the normal "
+        "approximations used above 30 (median interval) and 50/25 (U-test) samples. Rounding ties of the rendered percentages and confidence levels that coincide with a "
         "coverage value to the last ulp are outside the checked domain.")
 TECHNIQUE = "TLA+ model checking (TLC) of contract vs transcription + replay of every generated input into benchmath (metamorphic variants, 8-goroutine cache orders)"
 DESIGN_REF = "DESIGN.md section 4 C13"
@@ -23,7 +27,9 @@ RULE = ("(M) exhaustive TLC run of Summaries.tla: every (n<=30, level) for the m
         "for the exact/normal model, every rank pattern with n1+n2<=6 (8) for P (range, symmetry, exact permutation value when untied; "
         "brute force over all C(N,n1) assignments), threshold table, FormatDelta and PctRangeString decision tables (total, disjoint, "
         "if-chain = true row), medianCache under all interleavings of 2 (3) callers x 3 keys x 4 (5) lookups. "
-        "(G) one replay case per input; cmp patterns once per assumption; each case runs 5-7 concrete variants x all thresholds. "
+        "(G) one replay case per input; cmp patterns once per assumption; each case runs 5-7 concrete variants x all thresholds; "
+        "'normallarge': every n in 1..70 x level, four harness-drawn samples each (integers, few levels / constant, full mantissas, "
+        "negative x 2^k), exact mean and variance in rationals, t coverage by quadrature. "
         "distinct_nontrivial = median cases whose interval is finite for the sample size + samples with differing values + rank patterns "
         "with at least two levels (x3 assumptions) + delta/range cases whose expected text is a percentage + cache orders that repeat a key "
         "or mix sizes.")
@@ -139,6 +145,7 @@ def run(ctx):
         "confidence levels on the rational grid of the cfg; levels that need more than 30 samples for a finite interval are outside the grid",
         "rendered percentages whose next decimal is an exact 5 (rounding mode not fixed by the property) are excluded",
         "for samples above the exact limits (median interval n>30; U-test >50 or >25 with ties) only the relational clauses are checked",
-        "the Welch p-value and the t quantile are numeric: only range, symmetry, invariance and (n, level)-consistency are checked (auxiliary)",
+        "the Welch p-value and the t interval are numeric: checked against a harness-side oracle (exact rational statistic, quadrature of the t density), "
+        "besides range, symmetry, invariance and (n, level)-consistency",
         "P equal to the threshold up to rounding (but not bit-equal) is not used to decide '~'",
     ])
